@@ -9,7 +9,8 @@ META = dict(
               "raises on the first event), optional 2 scheduled jobs (one raises); fault script chosen by the solver: "
               "failing phase in {none, initialize, main, finalize} x failing producer x ending in {sources exhausted / "
               "idle stop, stop() from a handler, handler error with stop_on_handler_exceptions, external cancellation "
-              "at 0 / 15 / 50 ms, stop() from another task at 5 / 15 / 50 ms (5 ms: a producer is still initialising)} x "
+              "at 0 / 15 / 50 ms, stop() from another task at 5 / 15 / 50 ms (5 ms: a producer is still initialising), the same followed by a second stop() 10 ms later while the "
+              "producers take 20 ms to finalise} x "
               "handler duration in {0, 30 ms, 5 s}; max_concurrent symbolic in 1..3",
         thorough="adds 1 and 3 producers, max_concurrent up to 5"),
     stubs=["basana.core.dt.utc_now -> virtual clock", "VLoop", "logging disabled (the record factory is called "
@@ -18,7 +19,8 @@ META = dict(
                  "feasibility-checked enumeration of the script variables and the symbolic max_concurrent"],
     outside=["OS signals (stop_signals=[])", "more than 3 producers"],
     required_covers=["run completed", "run raised the producer's error", "run was cancelled externally",
-                     "a full run with failing handler and job completed"],
+                     "a full run with failing handler and job completed",
+                     "stop() was called again while the run was ending"],
 )
 
 
